@@ -84,6 +84,25 @@ def _family(rng, kind):
         e = [rng.choice([0.0, 1e-13, 1e-11, 1e-9, 1e-8, 1e-4, 1e-3, 1e-2]) * rng.choice([-1, 1]) for _ in range(4)]
         p1, p2 = np.array([-l, u]), np.array([r + e[0], u + e[1]])
         p3, p4 = np.array([-l + e[2], -d]), np.array([r + e[0] + e[2], -d + e[3]])
+    elif kind == "exact_b0":
+        # small integer corners around the origin for which the linear coefficient b of the quadratic vanishes EXACTLY (opposite roots)
+        while True:
+            c_ = [rng.randint(1, 5) for _ in range(8)]
+            p1, p2, p3, p4 = np.array([-c_[0], c_[1]], float), np.array([c_[2], c_[3]], float), np.array([-c_[4], -c_[5]], float), np.array([c_[6], -c_[7]], float)
+            x31, x42, y31, y42 = p3[0] - p1[0], p4[0] - p2[0], p3[1] - p1[1], p4[1] - p2[1]
+            a_ = x31 * y42 - y31 * x42
+            b_ = x31 * p2[1] - y31 * p2[0] + y42 * p1[0] - x42 * p1[1]
+            cc = p1[0] * p2[1] - p2[0] * p1[1]
+            if b_ == 0 and a_ != 0 and cc != 0 and 0 < -cc / a_ < 1:
+                t0 = math.sqrt(-cc / a_)
+                den = (p2[1] + t0 * y42) - (p1[1] + t0 * y31)
+                if abs(den) > 1e-6 and 0.05 < (0 - (p1[1] + t0 * y31)) / den < 0.95:
+                    s0 = (0 - (p1[1] + t0 * y31)) / den
+                    break
+        scale = rng.choice([1.0, 0.5, 4.0, 1024.0])
+        off = np.array([0.0, 0.0])
+        P = [p * scale for p in (p1, p2, p3, p4)]
+        return P, np.array([0.0, 0.0]), s0, t0
     elif kind == "rotated":
         ang = U(0.05, 0.7) * rng.choice([-1, 1])
         l, r, u, d = U(0.5, 1.5), U(0.5, 1.5), U(0.5, 1.5), U(0.5, 1.5)
@@ -96,7 +115,7 @@ def _family(rng, kind):
     return P, out, s0, t0
 
 
-KINDS = ["irregular", "rect", "para", "para_hshear", "para_vshear", "trapezoid", "near_parallel", "rotated"]
+KINDS = ["irregular", "rect", "para", "para_hshear", "para_vshear", "trapezoid", "near_parallel", "rotated", "exact_b0"]
 
 
 def _cond_ok(P, t, s, branch):
@@ -352,6 +371,8 @@ def suite_resamplers(ctx):
             "constant": np.full(shape, 7.25),
             "affine": np.where(sok, f_aff(np.where(sok, sx, 0), np.where(sok, sy, 0)), 0.0),
             "random": np.array([[rng.uniform(-5, 5) for _ in range(shape[1])] for _ in range(shape[0])]),
+            # values that need more than 24 significant bits (epoch seconds, large counts)
+            "offset": np.where(sok, f_aff(np.where(sok, sx, 0), np.where(sok, sy, 0)), 0.0) + 1.7e9,
         }
         inp0 = {"pair": label, "source": _desc(src), "target": _desc(tgt), "radius": radius, "neighbours": neighbours}
         reduce_data = rng.choice([False, False, True])
@@ -593,7 +614,9 @@ def suite_resamplers(ctx):
                                  f"{'has none' if np.isnan(ref3[idx]) else 'has ' + str(ref3[idx])} ({int(pat.sum())} positions)", inpx, None, tags={"cause": "numpy-vs-xarray-pattern"}, size=n_out)
                         continue
                     with np.errstate(all="ignore"):
-                        dif = ~np.isnan(ref3) & (np.abs(out3 - ref3) > 1e-5 * (1 + np.abs(ref3)))
+                        span_ = float(np.nanmax(stack) - np.nanmin(stack)) if np.isfinite(stack).any() else 1.0
+                        tol_x = (1e-5 * (1 + np.abs(ref3))) if dtype is np.float32 else (1e-6 * (1 + span_) + 1e-12 * np.abs(ref3))
+                        dif = ~np.isnan(ref3) & (np.abs(out3 - ref3) > tol_x)
                     if dif.any():
                         idx = tuple(map(int, np.argwhere(dif)[0]))
                         ctx.fail("bilinear.XArrayBilinearResampler.resample", f"{kind} {ndim}-D: xarray value {out3[idx]} at {idx}, numpy value {ref3[idx]} ({int(dif.sum())} positions)",
